@@ -276,6 +276,9 @@ func NewPublicKeyFromBytes(bts []byte) (*PublicKey, error) {
 	if err != nil {
 		return nil, err
 	}
+	if pubk.N == nil || pubk.Z == nil || pubk.S == nil || pubk.R == nil {
+		return nil, errors.New("public key misses a mandatory element (n, Z, S or Bases)")
+	}
 	keylength := pubk.N.BitLen()
 	if sysparam, ok := DefaultSystemParameters[keylength]; ok {
 		pubk.Params = sysparam
@@ -299,22 +302,15 @@ func NewPublicKeyFromFile(filename string) (*PublicKey, error) {
 		return nil, err
 	}
 	defer common.Close(f)
-	pubk := &PublicKey{}
 
 	b, err := io.ReadAll(f)
 	if err != nil {
 		return nil, err
 	}
 
-	err = xml.Unmarshal(b, pubk)
-	if err != nil {
-		return nil, err
-	}
-	pubk.Params = DefaultSystemParameters[pubk.N.BitLen()]
-	if err = pubk.parseRevocationKey(); err != nil {
-		return nil, err
-	}
-	return pubk, nil
+	// Apply the same checks as for keys that do not come from a file (mandatory elements,
+	// supported key length).
+	return NewPublicKeyFromBytes(b)
 }
 
 func (pubk *PublicKey) parseRevocationKey() error {
